@@ -80,7 +80,7 @@ Definition step_agrees (n' : mnet) (r : option (list event)) (i : nat) (o : nobs
   end.
 
 (** index of the first disagreeing step, if any *)
-Fixpoint first_disagreement (n : mnet) (k : N) (l : list (nop * nobs)) : option N :=
+Fixpoint first_disagreement (n : mnet) (k : N) (l : list (nop unit * nobs)) : option N :=
   match l with
   | [] => None
   | (o, ob) :: rest =>
@@ -88,7 +88,7 @@ Fixpoint first_disagreement (n : mnet) (k : N) (l : list (nop * nobs)) : option 
       if step_agrees n' r (nop_chain o) ob then first_disagreement n' (k + 1) rest else Some k
   end.
 
-Record net_case := NetCase { nc_names : list bytes; nc_steps : list (nop * nobs) }.
+Record net_case := NetCase { nc_names : list bytes; nc_steps : list (nop unit * nobs) }.
 
 Definition net_case_ok (c : net_case) : bool :=
   match first_disagreement (map mk_chain (nc_names c)) 0 (nc_steps c) with None => true | Some _ => false end.
